@@ -15,6 +15,7 @@ open MythVerif.Wsq
 
 def ownerLocked : OPc → Bool
   | .po4 _ | .po5 _ _ | .po5b _ _ | .po6 _ | .po7 | .po8 | .po9 => true
+  | .po5c _ _ | .po5d _ => true
   | .stuckL | .pt1 _ | .pt6 _ | .pt7 _ _ | .pt8 _ _ | .pt9 => true
   | .stuck | .pub _ | .pum _ _ | .pus _ _ | .puv _ _ | .pux _ _ | .pt2 _ | .pt3 _ _ | .pt4 _ _ | .pt5 _ _ => true
   | _ => false
@@ -22,6 +23,8 @@ def ownerLocked : OPc → Bool
 def thiefLocked : TPc → Bool
   | .tk1 | .tkf _ | .tk2 _ | .tk3 _ _ | .tk4 _ | .tk5 _ | .tk6 => true
   | .tp1 _ | .tp1b _ | .tp2 _ _ | .tp3 _ | .tp4 _ => true
+  | .wk1 | .wkf _ | .wk2 _ | .wk3 _ | .wkd _ _ | .wk4 _ | .wk4u _ | .wk5 _ | .wk6 => true
+  | .vc1 | .vk1 | .vkf _ | .vk2 _ | .vk3 _ | .vk4 _ _ | .vk5 _ | .vu => true
   | _ => false
 
 /-- the owner is between operations or at the start of one: its buffer may still hold the
@@ -33,12 +36,14 @@ def carry : OPc → Bool
 /-- program counters at which a thief / passer may have buffered stores -/
 def mayBuf : TPc → Bool
   | .tkf _ | .tk6 | .tp3 _ | .tp4 _ => true
+  | .wkf _ | .wk6 | .wk4u _ | .vkf _ | .vk5 _ | .vu => true
   | _ => false
 
 /-- lock-holding program counters of a thief at which no increment of `base` is pending or visible -/
 def notTrans : TPc → Bool
   | .tk1 | .tk3 _ _ | .tk4 _ => true
   | .tp1 _ | .tp1b _ | .tp2 _ _ | .tp3 _ | .tp4 _ => true
+  | .wk1 | .wk4 _ | .wk4u _ | .vc1 | .vk1 => true
   | _ => false
 
 /-- the reset path and the part of a locked section that follows a re-centring `memmove`: memory
@@ -49,12 +54,18 @@ def resetting : OPc → Bool
   | .pus _ _ | .puv _ _ | .pux _ _ | .pt4 _ _ | .pt5 _ _ | .pt6 _ | .pt7 _ _ | .pt8 _ _ | .pt9 => true
   | _ => false
 
+/-- the owner has stored the decremented `top` of a pop and has neither committed the fast path
+    nor taken the lock yet -/
+def popWin : OPc → Bool
+  | .pof _ | .po2 _ | .pol _ => true
+  | _ => false
+
 def ownerFlight : OPc → Bool
-  | .po3 _ _ | .po5 _ _ | .po5b _ _ | .po6 _ => true
+  | .po3 _ _ | .po5 _ _ | .po5b _ _ | .po6 _ | .po5c _ _ | .po5d _ => true
   | _ => false
 
 def thiefFlight : TPc → Bool
-  | .tk3 _ _ | .tk4 _ => true
+  | .tk3 _ _ | .tk4 _ | .wk4 _ | .wk4u _ => true
   | _ => false
 
 /-! Buffer shapes.  They are functions of the fields they mention (not of the state) and are kept
@@ -76,7 +87,10 @@ def PofShape (bufO : List Sto) (top : Int) (ptr : Int → Option Elem) (A : List
   (bufO = [.top (t + 1), .top t] ∧ top = t ∧ A ≠ [] ∧ ptr t = A.getLast?) ∨
   (∃ e, bufO = [.ptr t (some e), .top (t + 1), .top t] ∧ top = t ∧ A.getLast? = some e)
 
-def Po6Shape (bufO : List Sto) (lt : Int) : Prop := bufO = [] ∨ bufO = [.ptr lt none]
+def Po5cShape (bufO : List Sto) (lt : Int) : Prop := bufO = [] ∨ bufO = [.ptr lt none]
+
+def Po6Shape (bufO : List Sto) (lt : Int) : Prop :=
+  bufO = [] ∨ bufO = [.ptr lt none] ∨ bufO = [.ptr lt none, .cache none] ∨ bufO = [.cache none]
 
 def Po8Shape (bufO : List Sto) (top h : Int) : Prop := bufO = [.top h] ∨ (bufO = [] ∧ top = h)
 
@@ -120,6 +134,16 @@ def TkfShape (buf : List Sto) (tr : Bool) (b : Int) : Prop :=
 def Tk6Shape (buf : List Sto) (tr : Bool) (lb : Int) : Prop :=
   (buf = [.base lb] ∧ tr = true) ∨ (buf = [] ∧ tr = false)
 
+/-- wsapi take after its store of the cache word -/
+def Wk4uShape (buf : List Sto) : Prop := buf = [.cache none] ∨ buf = []
+
+/-- wsapi peek before the roll-back of `base`: the store of the cache word may be pending -/
+def Vk5Shape (buf : List Sto) : Prop := buf = [] ∨ ∃ r, buf = [.cache r]
+
+/-- wsapi peek before its unlock: cache word and roll-back pending, or the roll-back, or nothing -/
+def VuShape (buf : List Sto) (tr : Bool) (lb : Int) : Prop :=
+  (∃ r, buf = [.cache r, .base lb] ∧ tr = true) ∨ (buf = [.base lb] ∧ tr = true) ∨ (buf = [] ∧ tr = false)
+
 structure Inv (s : St) : Prop where
   cfg   : s.cfg = FenceCfg.code
   lockO : s.lock = .owner ↔ ownerLocked s.opc = true
@@ -153,6 +177,8 @@ structure Inv (s : St) : Prop where
   po3   : ∀ t x, s.opc = .po3 t x → s.bufO = [] ∧ s.top = t ∧ s.lt = t ∧ s.ptr t = some x ∧ s.lb ≤ t ∧ s.flO = some x
   po5   : ∀ t x, s.opc = .po5 t x → s.bufO = [] ∧ s.top = t ∧ s.lt = t ∧ s.ptr t = some x ∧ s.flO = some x
   po5b  : ∀ t r, s.opc = .po5b t r → s.bufO = [] ∧ s.top = t ∧ s.lt = t ∧ r = s.flO
+  po5c  : ∀ t r, s.opc = .po5c t r → r = s.flO ∧ s.top = s.lt ∧ Po5cShape s.bufO s.lt
+  po5d  : ∀ r, s.opc = .po5d r → r = s.flO ∧ s.top = s.lt ∧ Po5cShape s.bufO s.lt
   po6   : ∀ r, s.opc = .po6 r → r = s.flO ∧ s.top = s.lt ∧ Po6Shape s.bufO s.lt
   po7   : s.opc = .po7 → s.bufO = [] ∧ s.lt = s.lb ∧ s.top = s.lt - 1
   po8   : s.opc = .po8 → s.lt = s.lb ∧ s.lb = s.size / 2 ∧ s.sh = 0 ∧ Po8Shape s.bufO s.top (s.size / 2)
@@ -182,13 +208,32 @@ structure Inv (s : St) : Prop where
   tp2   : ∀ p e b, s.tpc p = .tp2 e b → b = s.lb
   tp3   : ∀ p e, s.tpc p = .tp3 e → Pu2Shape (s.bufT p) s.ptr e (s.lb - 1)
   tp4   : ∀ p ok, s.tpc p = .tp4 ok → InsShape (s.bufT p) s.ptr s.lb
+  -- wsapi take
+  wkf   : ∀ p b, s.tpc p = .wkf b → s.lb = b ∧ TkfShape (s.bufT p) s.tr b
+  wk2   : ∀ p b, s.tpc p = .wk2 b → s.lb = b ∧ s.tr = true
+  wk3   : ∀ p b, s.tpc p = .wk3 b → s.lb = b ∧ s.tr = true ∧ s.A ≠ [] ∧ s.ptr b = s.A.head? ∧
+            (b < s.top ∨ (popWin s.opc = true ∧ s.bufO = []))
+  wkd   : ∀ p b r, s.tpc p = .wkd b r → s.lb = b ∧ s.tr = true ∧ s.A ≠ [] ∧ r = s.A.head? ∧
+            (b < s.top ∨ (popWin s.opc = true ∧ s.bufO = []))
+  wk4   : ∀ p r, s.tpc p = .wk4 r → r = s.flT
+  wk4u  : ∀ p r, s.tpc p = .wk4u r → r = s.flT ∧ Wk4uShape (s.bufT p)
+  wk5   : ∀ p b, s.tpc p = .wk5 b → s.lb = b ∧ s.tr = true
+  wk6   : ∀ p, s.tpc p = .wk6 → Tk6Shape (s.bufT p) s.tr s.lb
+  -- wsapi peek
+  vkf   : ∀ p b, s.tpc p = .vkf b → s.lb = b ∧ TkfShape (s.bufT p) s.tr b
+  vk2   : ∀ p b, s.tpc p = .vk2 b → s.lb = b ∧ s.tr = true
+  vk3   : ∀ p b, s.tpc p = .vk3 b → s.lb = b ∧ s.tr = true
+  vk4   : ∀ p b r, s.tpc p = .vk4 b r → s.lb = b ∧ s.tr = true
+  vk5   : ∀ p b, s.tpc p = .vk5 b → s.lb = b ∧ s.tr = true ∧ Vk5Shape (s.bufT p)
+  vu    : ∀ p, s.tpc p = .vu → VuShape (s.bufT p) s.tr s.lb
 
 section ForceAux
 open Lean Meta in
 run_meta do
   let env ← getEnv
-  for f in [``ownerLocked, ``thiefLocked, ``carry, ``mayBuf, ``notTrans, ``resetting, ``ownerFlight, ``thiefFlight,
-            ``stepO, ``stepT, ``step, ``applySto, ``viewTop, ``viewBase, ``viewPtr, ``releaseO, ``releaseT] do
+  for f in [``ownerLocked, ``thiefLocked, ``carry, ``popWin, ``mayBuf, ``notTrans, ``resetting, ``ownerFlight, ``thiefFlight,
+            ``stepO, ``stepT, ``stepD, ``step, ``applySto, ``viewTop, ``viewBase, ``viewPtr, ``viewCache,
+            ``releaseO, ``releaseT] do
     for i in [1, 2, 3, 4, 5, 6, 7, 8] do
       let n := f ++ (Name.mkSimple s!"match_{i}")
       if env.contains n then
